@@ -30,7 +30,8 @@ ASSUMPTIONS = [
     "attributes, and refused requests on wrapped attributes; lock()/freeze() end a history and are not modelled",
 ]
 RULE = ("a history = 4-14 operations on a freshly configured package of a generated on-disk ebuild repository (md5-cache metadata, "
-        "conditional *DEPEND/LICENSE/REQUIRED_USE/RESTRICT/SRC_URI over 5 IUSE flags + 2 non-IUSE flags, random forced/masked flags and "
+        "conditional *DEPEND/LICENSE/REQUIRED_USE/RESTRICT/SRC_URI over 5 IUSE flags + 2 non-IUSE flags (flag? groups and atoms with "
+        "transitive USE deps [x?] [x=] [!x?] [!x=] with (+)/(-) defaults; a quarter of the dependency attributes depend on flags only through such atoms), random forced/masked flags and "
         "initial USE), every operation followed by 1-3 attribute reads; non-trivial = some attribute was read with two different "
         "values in the same history (so a stale cache entry would be visible) ")
 LEVEL_TEXT = ("Kernel-checked Lean 4 theorems about a model of PackageWrapper + LimitedChangeSet: for every history (any length, any flags, "
@@ -125,10 +126,24 @@ class Fixture:
         iuse = rng.sample(FLAGS, rng.randint(2, 5))
         cond = iuse + rng.sample(EXTRA, rng.randint(0, 1))   # conditionals may also name a non-IUSE (unchangeable) flag
         atoms = ["dep/%s" % c for c in "pqrstu"] + [">=dep/v-2", "!dep/blk"]
+
+        def usedep_atom():
+            """an atom whose USE dependency is itself conditional on the package's flags (transitive USE deps: [x?], [x=],
+            [!x?], [!x=], with and without (+)/(-) defaults, mixed with plain [x]/[-x])"""
+            parts = []
+            for f in rng.sample(cond, rng.randint(1, min(2, len(cond)))):
+                default = rng.choice(["", "", "(+)", "(-)"])
+                form = rng.choice(["%s%s?", "%s%s=", "!%s%s?", "!%s%s=", "%s%s?", "%s%s=", "%s%s", "-%s%s"])
+                parts.append(form % (f, default))
+            return "%s[%s]" % (rng.choice(["dep/w", "dep/x", ">=dep/y-3", "dep/z:2"]), ",".join(parts))
         spec = {"iuse": [("+" + f if rng.random() < 0.1 else f) for f in iuse]}
         for k in ("BDEPEND", "DEPEND", "RDEPEND", "PDEPEND", "IDEPEND"):
-            if rng.random() < 0.75:
-                spec[k] = gen_depstr(rng, atoms, cond)
+            r = rng.random()
+            if r < 0.55:
+                spec[k] = gen_depstr(rng, atoms + [usedep_atom() for _ in range(2)], cond)
+            elif r < 0.8:
+                # flags reach this attribute ONLY through transitive USE deps: no "flag? ( ... )" group at all
+                spec[k] = " ".join([usedep_atom() for _ in range(rng.randint(1, 3))] + rng.sample(atoms, rng.randint(0, 2)))
         spec["LICENSE"] = gen_depstr(rng, ["GPL-2", "MIT", "BSD", "Apache-2.0"], cond)
         if rng.random() < 0.8:
             spec["REQUIRED_USE"] = gen_required_use(rng, iuse)
@@ -331,7 +346,8 @@ def check_history(ctx, fx, case, pkg, raw, ops, rep, tag):
 
 CORPUS_PKG = {"iuse": ["a", "b", "c"], "RDEPEND": "a? ( dep/a ) !b? ( dep/nb ) c? ( a? ( dep/ca ) ) dep/always",
               "LICENSE": "a? ( GPL-2 ) MIT", "REQUIRED_USE": "a? ( b )", "RESTRICT": "c? ( test )",
-              "SRC_URI": "a? ( http://h/a.tar ) http://h/b.tar", "DEPEND": "x? ( dep/x ) !a? ( dep/na )"}
+              "SRC_URI": "a? ( http://h/a.tar ) http://h/b.tar", "DEPEND": "x? ( dep/x ) !a? ( dep/na )",
+              "BDEPEND": "dep/w[a(+)?] dep/x[c(-)=,!a?] dep/always", "PDEPEND": "dep/y[!c(+)=] dep/z[a?]", "IDEPEND": "dep/w[c=]"}
 
 
 def R(*attrs):
@@ -367,6 +383,12 @@ def corpus():
         (["b"], ["b"], R() + W("dep/a") + R() + W("dep/always", False) + R() + W("dep/nb") + W("dep/ca") + R()),
         # duplicates inside one request
         ([], ["b"], E("a", "a") + R() + D("b", "b") + R() + RB(1) + R()),
+        # attributes that depend on a flag only through transitive USE deps ([a(+)?], [c(-)=], [!c(+)=], [a?], [c=]):
+        # read, toggle one flag with a granted request, read again -- no rollback/commit in between
+        (["b"], ["b"], R("bdepend", "pdepend", "idepend") + E("a") + R("bdepend", "pdepend", "idepend") + E("c")
+         + R("bdepend", "pdepend", "idepend")),
+        (["b"], ["a", "b", "c"], R("bdepend", "pdepend", "idepend") + D("c") + R("bdepend", "pdepend", "idepend") + D("a")
+         + R("bdepend", "pdepend", "idepend")),
     ]
 
 
